@@ -14,7 +14,7 @@ import Driver.Util
     files  <bucket>                      -> <pathhex>,<pathhex>,...   (module files, sorted)
     b5     <table> <bucket> <deps>       -> ok <digest string> | err <tag> | hmiss <hex>
     b4     <table> <bucket> <obj> <obj>  -> ok <digest string> | err <tag> | hmiss <hex>
-    mset   <table> <mods> <i>            -> ok <digest string> | err <tag> | hmiss <hex>
+    mset   <table> <mods> <i>            -> ok <digest string> | err <tag> | hmiss <hex> | bad-numbering
   bucket = path=content,...   deps = type:hex,...   obj = name=content | -
   mods = L;bucket;i.j.k | R;bucket;deps  joined by '|'
 -/
@@ -106,6 +106,13 @@ def decMods (s : String) : Option (List Mod) :=
       pure ⟨bk, false, [], pins⟩
     | _ => none
 
+/-- resolved dependencies of every local module have smaller indices -/
+def topoNumbered (mods : List Mod) : Bool :=
+  (List.range mods.length).all fun i =>
+    match mods[i]? with
+    | none => true
+    | some m => !m.isLocal || m.deps.all (fun j => decide (j < i))
+
 def msetInputs (H : Bytes → Digest) (mods : List Mod) : List Bytes :=
   (List.range mods.length).flatMap fun i =>
     match mods[i]? with
@@ -168,6 +175,11 @@ def handle : List String → String
       | _, _, _, _ => "bad-op"
   | ["mset", t, ms, i] => match decTable t, decMods ms, i.toNat? with
       | some tb, some mods, some k =>
+        -- only topologically numbered sets are answered (resolved dependencies of a local module have
+        -- smaller indices): that is the hypothesis of `BufProofs.C08.moduleDigest_fuel`, under which the
+        -- fuel `length + 1` used here is provably enough (for other numberings of an acyclic set see
+        -- `moduleDigest_fuel_any_numbering`)
+        if !topoNumbered mods then "bad-numbering" else
         showMD tb (msetInputs (tableH tb) mods) (moduleDigest (tableH tb) mods (mods.length + 1) k)
       | _, _, _ => "bad-op"
   | _ => "bad-op"
